@@ -1449,3 +1449,28 @@ func flippedRel(rel *Term) *Term {
 	}
 	return nil
 }
+
+// condValues lists the values a function branches on: the condition of every If and, where an If tests the phi of a
+// short-circuit expression evaluated as a value (`switch { case a && b: }`), the operands that phi merges.
+func condValues(fn *ssa.Function) []ssa.Value {
+	var out []ssa.Value
+	for _, b := range fn.Blocks {
+		if len(b.Instrs) == 0 {
+			continue
+		}
+		iff, ok := b.Instrs[len(b.Instrs)-1].(*ssa.If)
+		if !ok {
+			continue
+		}
+		if phi, isPhi := iff.Cond.(*ssa.Phi); isPhi {
+			for _, e := range phi.Edges {
+				if _, isConst := e.(*ssa.Const); !isConst {
+					out = append(out, e)
+				}
+			}
+			continue
+		}
+		out = append(out, iff.Cond)
+	}
+	return out
+}
